@@ -25,6 +25,13 @@ pub fn for_property(p: &str) -> Vec<Suite> {
         "C34" => c34::suites(),
         "C29" => c29::suites(),
         "C30" => c30::suites(),
+pub mod c05;
+pub mod c07;
+pub mod c31;
+
+        "C05" => c05::suites(),
+        "C07" => c07::suites(),
+        "C31" => c31::suites(),
         _ => vec![],
     }
 }
